@@ -121,6 +121,13 @@ def discharge(obligations, timeout_ms=20000, fallbacks=True, nproc=None):
     tasks = []
     for i, ob in enumerate(obligations):
         try:
+            if ob.kind != 'cover' and getattr(getattr(ob, 'contract', None), 'decide_trivial', False):
+                # opt-in per contract: a goal that z3.simplify reduces to `true` holds under any hypotheses (no query);
+                # the path's cover obligation still checks that the hypotheses are consistent
+                import z3
+                if z3.is_true(z3.simplify(ob.goal)):
+                    ob.status, ob.backend, ob.seconds, ob.model, ob.output = 'proved', 'z3.simplify (goal reduces to true)', 0.0, None, ''
+                    continue
             if ob.kind == 'cover':
                 tasks.append((i, ob.smt2(), min(timeout_ms, 5000), False))
                 continue
